@@ -3,25 +3,25 @@
 import json, re
 DESC = {
  "C01": ("e1 seq (e1.rs)", "all words of depth 5 over {set a/b small + 9000 B, del, merge} x 6 threshold sets x 4 file sizes x 2 hash orders; reader cache / pool sweep; key / value shapes with warm and cold readers; structured histories over 3..100 keys; bulk histories (257 .. 70 000 keys); entry sizes around 2^12 .. 2^17; 70-100 MiB volumes; backward / frozen clock", "depth 7; 200 keys; 140 000 keys"),
- "C02": ("e1", "depth 5 over {set, del, reopen} x 4 file sizes; > 10 files; from id 8; with merges; shapes; structured and bulk histories; clocks; 2-3 trailing reopens each", "depth 7 / 9"),
+ "C02": ("e1", "depth 5 over {set, del, reopen} x 4 file sizes; > 10 files; from id 8; with merges; shapes; structured and bulk histories (also one entry per file); one word with 2^20+2 keys; the reference implementation's tombstone literals as values; clocks; 2-3 trailing reopens each", "depth 7 / 9; 2^21+3 keys"),
  "C05": ("e1", "depth 5 over the 8-symbol alphabet incl. merge and reopen on the 'hot' grid, depth 4 on the rest; after-merge sweeps with a change of thresholds; shapes (cold / warm); structured, bulk, size, volume histories; clocks", "depth 6"),
- "C12": ("e1", "depth 4, two extra recoveries (with / without hint files) in every state; after-merge, shapes, structured, bulk (257 / 4 100 keys), clock sweeps", "depth 5"),
+ "C12": ("e1", "depth 4, two extra recoveries (with / without hint files) in every state; after-merge, shapes, structured, bulk (257 / 4 100 keys, also one entry per file), clock sweeps; one word with 2^20+2 keys", "depth 5; 2^21+3 keys"),
  "C13": ("e1", "depth 5 / 4, size / minimality (vs. a real fresh store) / idempotence at every merge, whenever every non-empty file is selected; after-merge, shapes, structured, bulk sweeps", "depth 6"),
  "C14": ("e1 + e2", "depth 4 (trace + directory monitor) x 5 file sizes; structured histories (100+ files); interval-sync / sync-always sweep; recoveries of every crash directory of depth <= 3 and of the double crashes", "depth 6 / 4"),
- "C19": ("e1", "depth 5 / 4, counters vs. decoded files in every state; after-merge, shapes, structured, bulk (257 / 4 100 keys) sweeps", "depth 6; 66 000 keys"),
+ "C19": ("e1", "depth 5 / 4, counters vs. decoded files in every state; after-merge, shapes, structured, bulk (257 / 4 100 keys, also one entry per file: merges over 4 100 files) sweeps", "depth 6; 66 000 keys"),
  "C03": ("e2 crash (e2.rs)", "every system-call prefix of every word of length <= 4 x 5 configurations + value / key shapes + every prefix of 7 long histories (ids 9/10, 99/100) + a 300-key merge + double crashes; recovered twice, written to, restarted", "length <= 5, 8 configurations"),
- "C09": ("e2", "words <= 3 under sync=always, every crash point x per-file loss vectors (write boundaries + byte-granular short tails), 5 configurations incl. the exact-fill file size", "words <= 4, byte-granular"),
- "C20": ("e2", "every mutating call x {EIO, ENOSPC, short writes} of every word of length 3 (last-op faults of shorter words), shapes, long histories; 6 configurations", "length 4"),
- "C04": ("e3 sched (e3.rs, sched.rs, e3b.rs)", "23 harnesses, <= 2 preemptions (3 for two-thread harnesses); + every read-path fault position of a get in every state of words <= 3", "<= 3 / 4 preemptions"),
- "C07": ("e4 resp (e4.rs)", "all strings of length <= 6 over 12 symbols; number grid with all truncations; sized messages; combination grid; number lines x terminators; deep / huge in forked children", "length <= 8 (470 M strings)"),
- "C08": ("e4", "frame sequences x every segmentation / Pending / EOF script; 10 short-write transports; long traffic from specs", "longer arrays / sequences, 2^16 segmentations, 4 MiB values"),
+ "C09": ("e2", "words <= 3 under sync=always, every crash point x per-file loss vectors (write boundaries + byte-granular short tails), 5 configurations incl. the exact-fill file size; + FAULTED histories: EIO at every mutating call of words <= 3 (and of 100 words with two merges / a reopen before the last merge), the store keeps running, power lost after every later operation, 9 configurations", "words <= 4, byte-granular"),
+ "C20": ("e2", "every mutating call x {EIO, ENOSPC, short writes} of every word of length 3 (last-op faults of shorter words), shapes, long histories; 6 configurations; + at the RESP server: DEL of 3 / 2 / 1 keys and SET with the store call for one key failing", "length 4"),
+ "C04": ("e3 sched (e3.rs, sched.rs, e3b.rs)", "23 harnesses, <= 2 preemptions (3 for two-thread harnesses); + every read-path fault position of a get in every state of words <= 3; + every read-path call made SLOW (pool of one reader) while another thread gets", "<= 3 / 4 preemptions"),
+ "C07": ("e4 resp (e4.rs)", "all strings of length <= 6 over 12 symbols; number grid with all truncations; sized messages; combination grid; number lines x terminators; every byte value at every position of 24 well-formed messages; deep / huge in forked children", "length <= 8 (470 M strings)"),
+ "C08": ("e4", "frame sequences x every segmentation / Pending / EOF / transport-error script; 10 short-write transports; long traffic from specs", "longer arrays / sequences, 2^16 segmentations, 4 MiB values"),
  "C06": ("e5 net (e5.rs)", "request words of depth 3 x {whole, lock-step, byte-wise, every cut, pairs of cuts, cut-and-wait, after dead connections}; structured words; late readers", "depth 4; every DEL count to 1100"),
- "C10": ("e5 (e5b.rs)", "hostile streams x 3 endings x position; after a crowd of 12; queued behind a full server (closed / reset)", "strings <= 5"),
- "C11": ("e5", "(programs, interleaving of gate events) at three granularities: enter / return; + before the writer lock; + every hook point; real shard contention", "+ 3 clients x 2 commands; 2+1 commands at every hook point"),
- "C15": ("e5", "connection-event words (N = 1, 2 length 6; N = 3 length 4; in-flight plan length 5), model checked after every event; time passes; connection cycles (every 200th word: 1 100)", "length 7-8; 70 000 cycles"),
- "C16": ("e5", "(connection states, release order) x {below, at} the connection limit, incl. every truncation point of a request, 15 kinds of state, a late client", "all prefix pairs"),
- "C17": ("e6 vtime (e6.rs)", "drop positions (worker asleep, every gate, every inner point, other threads' operations) x worker configurations incl. windows and failing drops; open/close cycles", "30 inner points, 8 user points, 20 cycles"),
- "C18": ("e6", "configurations x 5 ticks in virtual time: policies, window edges, triggers (crossed, equal, zero, re-crossed), intervals, jitter, sync strategies, failing merges and fsyncs", "horizon 10"),
+ "C10": ("e5 (e5b.rs)", "hostile streams x 3 endings x position; after a crowd of 12; queued behind a full server (closed / reset); the client that does not read (16 KiB .. 1 MiB unread, then garbage / half-close)", "strings <= 5; up to 4 MiB unread"),
+ "C11": ("e5", "(programs, interleaving of gate events) at three granularities: enter / return; + before the writer lock; + every hook point; real shard contention; a command whose store call fails (slow, then failing write) against two reads at every pair of its points", "+ 3 clients x 2 commands; 2+1 commands at every hook point"),
+ "C15": ("e5", "connection-event words (N = 1, 2 length 6; N = 3 length 4; in-flight plan length 5), model checked after every event; time passes (a minute with nothing open; two days with N silent connections open); connection cycles (every 200th word: 1 100)", "length 7-8; 70 000 cycles"),
+ "C16": ("e5", "(connection states, release order) x {below, at} the connection limit, incl. every truncation point of a request, 15 kinds of state, a late client; ten minutes pass after the signal", "all prefix pairs"),
+ "C17": ("e6 vtime (e6.rs)", "drop positions (worker asleep, every gate, every inner point, other threads' operations) x worker configurations incl. windows and failing drops, each also as a drop by unwinding; open/close cycles", "30 inner points, 8 user points, 20 cycles"),
+ "C18": ("e6", "configurations x 5 ticks in virtual time: policies, window edges, triggers (crossed, equal, zero, re-crossed), intervals, jitter, sync strategies, failing merges and fsyncs, a client's set inside the writer lock at the tick", "horizon 10"),
 }
 rows = ["| id | engine (file) | what the quick tier enumerates on this tree | evaluations (quick) | quick wall | thorough adds |", "|---|---|---|---|---|---|"]
 for pid in sorted(DESC):
